@@ -359,6 +359,100 @@ def _int_real_task(name):
     return acc
 
 
+# ---------------------------------------------------------------------------
+# bytes-like carriers and the keyword spelling of the decoder call: a string handed over in another buffer type is still THAT
+# string (its raw bytes); the decoder may refuse the carrier, it may not accept a string the strict decoder refuses, nor accept a
+# carrier and re-encode to something other than its raw bytes
+
+def _swap(b, k):
+    b = b + b"\x00" * (-len(b) % k)
+    return b"".join(b[i:i + k][::-1] for i in range(0, len(b), k))
+
+
+def carriers(raw):
+    """(name, object, raw bytes the object stands for)"""
+    import array
+    out = [("bytearray", bytearray(raw), raw), ("memoryview", memoryview(raw), raw), ("array-B", array.array("B", raw), raw)]
+    for code, k in (("H", 2), ("I", 4), ("Q", 8)):
+        if len(raw) % k == 0 and raw:
+            out.append(("memoryview-cast-" + code, memoryview(raw).cast(code), raw))
+            a = array.array(code)
+            a.frombytes(raw)
+            out.append(("array-" + code, a, raw))
+    return out
+
+
+def carrier_strings(R, valid):
+    """raw strings worth wrapping: each valid encoding, extended by junk to 2x/4x/8x its size (plain and with the bytes of every
+    2/4/8-byte item swapped - what a decoder that counts ITEMS and reverses them would read), truncated, empty"""
+    out = []
+    for e in valid:
+        out.append(e)
+        for k in (2, 4, 8):
+            junk = bytes((17 * i + 3) % 251 for i in range(len(e) * (k - 1)))
+            out.append(e + junk)
+            out.append(_swap(e + junk, k))
+            out.append(junk + e)
+            out.append(_swap(junk + e, k))
+            out.append(_swap(e, k)[:len(e)] if len(e) % k == 0 else e)
+        out.append(e[:-1])
+    out.append(b"")
+    seen, res = set(), []
+    for b in out:
+        if b not in seen:
+            seen.add(b)
+            res.append(b)
+    return res
+
+
+def judge_carrier(inst, how, obj, raw, acc, keyword=False):
+    R = inst.ref
+    exp = R.dec_strict(raw)
+    g = inst.group
+    got = T.observe(lambda: (g.bytes_to_element(b=obj) if keyword else g.bytes_to_element(obj)).to_bytes())
+    acc.n(transitions=1)
+    acc.seen((fam(inst), how, keyword, got[0], exp is None))
+    if got[0] != "ok":
+        return                                                  # refusing a carrier (or the keyword spelling) is always acceptable
+    if exp is None or bytes(got[1]) != raw or not isinstance(got[1], bytes):
+        c = classify(R, raw) if exp is None else "valid"
+        acc.violation("C05/%s/carrier-%s%s" % (fam(inst), how.split("-")[0], "-keyword" if keyword else ""),
+                      {"what": "bytes_to_element(%s%s) accepts a buffer whose raw bytes are a %s string (%d bytes) or re-encodes it to other bytes" %
+                               ("b=" if keyword else "", how, c, len(raw)), "inst": inst.desc,
+                       "replay": {"fn": "carrier", "inst": inst.desc, "how": how, "raw": raw, "keyword": keyword}, "expected": "raises" if exp is None else raw,
+                       "observed": got})
+
+
+def _carrier_task(name):
+    acc = Acc()
+    inst, why = T.try_get(name)
+    if inst is None:
+        return acc
+    R = inst.ref
+    if inst.small:
+        valid = [R.enc(e) for e in R.elements()[1:6]]
+    else:
+        valid = [R.enc(R.mul(R.base(), k)) for k in (1, 5, R.q - 2)]
+    n = 0
+    for raw in carrier_strings(R, valid):
+        for how, obj, rb in carriers(raw):
+            judge_carrier(inst, how, obj, rb, acc)
+            n += 1
+        # keyword spelling of the call, plain bytes and one carrier
+        judge_carrier(inst, "bytes", raw, raw, acc, keyword=True)
+        judge_carrier(inst, "bytearray", bytearray(raw), raw, acc, keyword=True)
+    # all short strings through the keyword spelling on toy groups
+    if inst.small and R.esize == 1:
+        for ln in (0, 1, 2):
+            for v in range(256 ** ln):
+                b = v.to_bytes(ln, "big") if ln else b""
+                judge_carrier(inst, "bytes", b, b, acc, keyword=True)
+                judge_carrier(inst, "bytearray", bytearray(b), b, acc)
+    acc.n(states=n, traces=1)
+    acc.inst(name, carriers=n)
+    return acc
+
+
 def run(tier, seed):
     acc = Acc()
     quick = tier == "quick"
@@ -378,6 +472,7 @@ def run(tier, seed):
     core.pmerge(_ed_toy_task, C.SMALL_ED_QUICK if quick else C.SMALL_ED_ALL, acc)
     core.pmerge(_int_real_task, ["Params1024", "Params2048", "Params3072"], acc)
     _ed_real(acc, seed)
+    core.pmerge(_carrier_task, ["T23", "T509", "E37", "E109", "ParamsEd25519", "Params1024"] + ([] if quick else ["T29", "T1543", "E53", "Params2048", "Params3072"]), acc)
     return acc
 
 
@@ -386,6 +481,10 @@ def replay(rec):
     inst = T.build_inst(r["inst"])
     if r["fn"] == "decode":
         return T.observe(lambda: inst.group.bytes_to_element(r["b"]).to_bytes())
+    if r["fn"] == "carrier":
+        obj = r["raw"] if r["how"] == "bytes" else [o for h, o, _ in carriers(r["raw"]) if h == r["how"]][0]
+        g = inst.group
+        return T.observe(lambda: (g.bytes_to_element(b=obj) if r.get("keyword") else g.bytes_to_element(obj)).to_bytes())
     s = inst.new(r["side"], b"pw", x=2 % inst.q)
     s.start()
     if r.get("restored"):
